@@ -88,23 +88,27 @@ func (b *payPerInterval) OnUpdate(node store.Node, peers []store.Node) (store.Ba
 		total.Add(total, credit)
 	}
 
-	// If this comparison is in the wrong place, it could make the pool
-	// insolvent. On the other hand, if we compare too early, then the client
-	// could get into a loop where it disconnects due to low balance, connects
-	// successfully, repeat.
-	if b.MinBalance != nil && b.MinBalance.Cmp(total) > 0 {
-		return store.Balance{}, LowBalanceError{
-			CurrentBalance: total,
-			MinBalance:     b.MinBalance,
-		}
-	}
-
 	if err := b.Store.AddNodeBalance(node.ID, new(big.Int).Neg(total)); err != nil {
 		return store.Balance{}, err
 	}
 	balance, err := b.Store.GetNodeBalance(node.ID)
 	if err != nil {
 		return balance, err
+	}
+
+	// The minimum is compared with the balance that is left after this
+	// update's charge. If this comparison is in the wrong place, it could make
+	// the pool insolvent. On the other hand, if we compare too early, then the
+	// client could get into a loop where it disconnects due to low balance,
+	// connects successfully, repeat.
+	if b.MinBalance != nil {
+		current := new(big.Int).Add(&balance.Credit, &balance.Deposit)
+		if b.MinBalance.Cmp(current) > 0 {
+			return store.Balance{}, LowBalanceError{
+				CurrentBalance: current,
+				MinBalance:     b.MinBalance,
+			}
+		}
 	}
 
 	return b.Store.GetNodeBalance(node.ID)
